@@ -1006,11 +1006,12 @@ def _flex_geom_vertex_narrowphase_detect(warn_overflow: bool):
         )
 
       if dist < margin:
+        # the candidate is stored with the geom first: the normal points from the geom to the vertex
         _write_candidate(
           max_candidates,
           dist,
           contact_pos,
-          nrm,
+          -nrm,
           geomid,
           -1,
           flexid,
